@@ -31,6 +31,20 @@ Section Orc.
       Some (sx_of_verdict (the_analyze_nodes (sx_str (a 0%nat), sx_bool (a 1%nat))
                              (opt_of_sx (fun x => map tree_of_sx (sx_list x)) (a 2%nat))))
     else if is_cmd cmd "scan_raw" then Some (sx_of_raw (scan_raw (sx_str (a 0%nat))))
+    else if is_cmd cmd "fn" then
+      (* function-level ties: (fn <name> (s1 s2 ...)) applies one pure helper of the model to every string *)
+      let name := sx_str (a 0%nat) in
+      let strs := map sx_str (sx_list (a 1%nat)) in
+      let unary (n : nat) : str := repeat 49 n in
+      if str_eqb name $"unclosed_arith" then Some (L (map (fun s => sx_of_bool (unclosed_arith s)) strs))
+      else if str_eqb name $"count_openers" then Some (L (map (fun s => A (unary (count_openers s))) strs))
+      else if str_eqb name $"strip_quotes" then Some (L (map (fun s => A (strip_quotes s)) strs))
+      else if str_eqb name $"is_assignment" then Some (L (map (fun s => sx_of_bool (is_assignment s)) strs))
+      else if str_eqb name $"strip_fd_prefix" then Some (L (map (fun s => A (strip_fd_prefix s)) strs))
+      else if str_eqb name $"sets_execution_var" then Some (L (map (fun s => sx_of_bool (sets_execution_var s)) strs))
+      else if str_eqb name $"plain_raw" then Some (L (map (fun s => sx_of_bool (plain_raw s)) strs))
+      else if str_eqb name $"scan_raw" then Some (L (map (fun s => sx_of_raw (scan_raw s)) strs))
+      else None
     else if is_cmd cmd "coverage" then
       (* unary counts: (executable nodes in the tree, executable nodes reached by the specification) *)
       let p := coverage (tree_of_sx (a 0%nat)) in
